@@ -28,11 +28,7 @@ Print Assumptions C01_len_bound.
 (* after enter() on n characters the invariant holds, with max_len = max (64 n) 16384 *)
 Theorem C01_initial : forall l lvl fl, N.of_nat (length l) * MAX_LEN_FACTOR <= USIZE_MAX ->
   J (init_buf l lvl fl) /\ max_len (init_buf l lvl fl) = N.max (N.of_nat (length l) * 64) 16384.
-Proof.
-  intros l lvl fl H. split; [apply J_init, H|].
-  unfold init_buf, enter_max_len. cbn. destruct (N.of_nat (length l) * MAX_LEN_FACTOR <=? USIZE_MAX) eqn:E; [reflexivity|].
-  apply N.leb_gt in E. lia.
-Qed.
+Proof. exact init_J_and_budget. Qed.
 Print Assumptions C01_initial.
 
 (* the statement of the property: whatever sequence of buffer operations the shaper performs on a
@@ -41,10 +37,7 @@ Theorem C01_output_length : forall l lvl fl ops b',
   N.of_nat (length l) * MAX_LEN_FACTOR <= USIZE_MAX ->
   run (init_buf l lvl fl) ops = Ok (Some b') -> out_mode b' = false -> max_len b' = max_len (init_buf l lvl fl) ->
   N.of_nat (length (pre b' ++ rest b')) <= N.max (N.of_nat (length l) * 64) 16384.
-Proof.
-  intros l lvl fl ops b' H E Ho Hm. destruct (C01_initial l lvl fl H) as [HJ Hmax].
-  pose proof (run_J ops _ _ E HJ) as HJ'. unfold J in HJ'. rewrite Ho in HJ'. rewrite app_length, Hm, Hmax in *. exact HJ'.
-Qed.
+Proof. exact run_output_length. Qed.
 Print Assumptions C01_output_length.
 
 Example C01_example :
